@@ -343,6 +343,10 @@ func TestC16(t *testing.T) {
 			s := gen.NewStream(gen.ProcSeed()*977+uint64(round), "c16race")
 			w := gen.NewWorld(gen.NewPKI(gen.PKISpec{Seed: gen.PKISeeds[round%4]}), s)
 			w.Q.Auth = s.Bytes([]int{32, 0, 200, 5}[round%4])
+			w.ChainNUL = s.Intn(2) == 0 // the optional terminator after the chain
+			if s.Intn(3) == 0 {
+				w.Q.Extra = s.Bytes(1 + s.Intn(40))
+			}
 			w.Build()
 			src := sources[round%3]
 			m, raw := c16Message(t, w, src)
@@ -352,6 +356,7 @@ func TestC16(t *testing.T) {
 			var raw2 []byte
 			if round%3 == 1 {
 				w2 = gen.NewWorld(gen.NewPKI(gen.PKISpec{Seed: gen.PKISeeds[(round+1)%4]}), gen.NewStream(gen.ProcSeed()*977+uint64(round)+500000, "c16race2"))
+				w2.ChainNUL = s.Intn(2) == 0
 				w2.Build()
 				m2, raw2 = c16Message(t, w2, sources[(round+1)%3])
 			}
